@@ -68,6 +68,10 @@ def handle_check(prop, tier, seed):
         rc2, tcov, nh = A.report(prop, [tr], None, T.ordering_table(tr["trace"]), tier, seed, t0, ASSUME_THREADS, evidence=False)
         extra = {"concurrent_part": {k: tcov[k] for k in ("programs", "executions", "evaluations", "distinct_nontrivial", "event_counts", "rule")},
                  "_extra_violations": nh}
+        # design level, unbounded: RefCount.tla (proof by tlapm for any number of handles) and the
+        # refinement BytesImpl => RefCount per buffer (TLC); BytesImpl is the model replayed above
+        from . import refine as RF
+        extra["unbounded_release_protocol"] = RF.run(tier)
     if prop in ("C02", "C04"):
         # safe code includes safe trait implementations that misbehave: the same fault schedules
         # as C17, judged for out-of-bounds accesses / wrong frees (C02) and for BytesMut
